@@ -8,6 +8,19 @@ ID = "C11"
 PROPS_FILE = "Props/C11.v"
 COQ_TARGETS = ["Harness/H11.vo"]
 ALLOWED_AXIOMS = []
+# second tie (translator): coq/Gen/Core.v is regenerated from the source text of C.REPO on every run and
+# coq/Tie/T11.v proves generated definition = hand model (harness/translate/py2coq_core.py)
+EXTRA_PROPS = ["Tie/T11.v"]
+
+
+def prebuild(ctx):
+    import os
+    import sys
+    sys.path.insert(0, os.path.join(C.VERIF, "harness", "translate"))
+    import py2coq_core
+    py2coq_core.prebuild(ctx, C, ["_constraint_eq", "_constraint_leq", "_constraint_geq", "_constraint_neq", "_constraint_lt", "_constraint_gt"])
+
+
 META = {
     "level_text": "Machine-checked proof (Coq) about the literal model of platypus/core.py _constraint_eq/leq/geq/neq/lt/gt, Constraint.__init__ (regex "
                   "^([<>=!]+)\\s*([^\\s<>=!]+)$ on character lists, operator table, two-argument, copy and callable forms, predefined constants) and the "
@@ -194,9 +207,9 @@ def exact_viol(intent, x):
     return d + DELTA if op in ("<", ">") else d
 
 
-def oracle_call(ctx, ctor, intent, x, v, where="call"):
+def oracle_call(ctx, ctor, intent, x, v, where="call", rp=None):
     """one call of a declared constraint: zero iff the relation holds, positive otherwise"""
-    rp = {"kind": "call", "ctor": list(ctor), "intent": [intent[0], repr(intent[1])], "x": repr(x)}
+    rp = rp or {"kind": "call", "ctor": list(ctor), "intent": [intent[0], repr(intent[1])], "x": repr(x)}
     holds = sat(intent, x)
     if intent[0] == "fun":
         return
@@ -233,8 +246,8 @@ def oracle_monotone(ctx, ctor, intent, c, xs):
             prev = (x, v)
 
 
-def oracle_eval(ctx, ctors, intents, xs, s, p):
-    rp = {"kind": "eval", "ctors": [list(c) for c in ctors], "intents": [[i[0], repr(i[1])] for i in intents], "xs": [repr(x) for x in xs]}
+def oracle_eval(ctx, ctors, intents, xs, s, p, rp=None):
+    rp = rp or {"kind": "eval", "ctors": [list(c) for c in ctors], "intents": [[i[0], repr(i[1])] for i in intents], "xs": [repr(x) for x in xs]}
     cv = s.constraint_violation
     allhold = all(sat(i, x) for i, x in zip(intents, xs))
     if s.feasible != allhold:
@@ -251,7 +264,7 @@ def oracle_eval(ctx, ctors, intents, xs, s, p):
         want = INF
     else:
         want = sum(abs(Fraction(v)) for v in parts)
-        ok = abs(Fraction(cv) - want) <= want * Fraction(1, 10 ** 12)
+        ok = abs(cv) != INF and abs(Fraction(cv) - want) <= want * Fraction(1, 10 ** 12)
     if not ok:
         ctx.violation("total-is-not-sum-of-absolute-violations", "constraints %r on values %r: constraint_violation=%r, individual violations %r sum to %s" % (ctors, xs, cv, parts, float(want)), rp)
 
@@ -303,6 +316,125 @@ def oracle_wellformed(s):
     if v != v or abs(v) == INF:
         return None
     return True
+
+
+# ----------------------------------------------------------------------------
+# operation sequences: long-lived Constraint objects (and copies of them) called in interleaved order,
+# one Problem object whose constraints are re-declared in place between evaluations
+# ----------------------------------------------------------------------------
+def exact_call_flag(intent, x, v):
+    ev = exact_viol(intent, x)
+    if ev is None:
+        return True
+    return v == v and abs(v) != INF and Fraction(v) == ev
+
+
+def exact_eval_flag(intents, xs, cv):
+    """True/False = exact flag for the Coq case, None = not shippable"""
+    if cv != cv or any(i[0] == "fun" and abs(x) == INF for i, x in zip(intents, xs)):
+        return None
+    evs = [(Fraction(0) if sat(i, x) else None) if abs(x) == INF else exact_viol(i, x) for i, x in zip(intents, xs)]
+    if any(v is None for v in evs):
+        return True
+    return abs(cv) != INF and Fraction(cv) == sum(evs)
+
+
+def json_key(obj):
+    import json
+    return json.dumps(obj, sort_keys=True)
+
+
+def jintent(i):
+    return [i[0], repr(i[1])]
+
+
+def run_object_sequence(ctx, steps, lits=None):
+    """steps (JSON): ["new", ctor, intent] | ["copy", i] | ["call", i, repr(x)] on a growing list of live Constraint objects"""
+    from platypus import Constraint
+    objs = []            # (object, ctor, intent, coq spelling)
+    done = []
+    for st in steps:
+        done.append(st)
+        rp = {"kind": "oseq", "steps": [list(x) for x in done]}
+        if st[0] == "new":
+            ctor, intent = tuple(st[1]), _intent(st[2])
+            c, err = declare(ctor)
+            if c is None:
+                ctx.violation("well-formed-expression-rejected", "Constraint %r raised %s" % (ctor, err), rp)
+                objs.append((None, ctor, intent, None))
+            else:
+                objs.append((c, ctor, intent, sp_lit(ctor) if shippable(ctor) else None))
+        elif st[0] == "copy":
+            src = objs[st[1] % len(objs)]
+            if src[0] is None:
+                objs.append(src)
+                continue
+            try:
+                objs.append((Constraint(src[0]), src[1], src[2], None if src[3] is None else "(SpCopy %s)" % src[3]))
+            except Exception as e:  # noqa: BLE001
+                ctx.violation("copy-of-constraint-raises", "Constraint(Constraint(%r)) raised %s" % (src[1], type(e).__name__), rp)
+                objs.append((None,) + src[1:])
+        elif st[0] == "call":
+            c, ctor, intent, sp = objs[st[1] % len(objs)]
+            if c is None:
+                continue
+            x = float(st[2])
+            try:
+                v = c(x)
+            except Exception as e:  # noqa: BLE001
+                ctx.violation("constraint-call-raises", "%r(%r) raised %s" % (ctor, x, type(e).__name__), rp)
+                continue
+            ctx.count()
+            oracle_call(ctx, ctor, intent, x, v, rp=rp)
+            if lits is not None and sp is not None and v == v and intent[0] != "fun":
+                lits.append("KCall %s %s %s %s" % (sp, C.xq_lit(x), C.xq_lit(v), C.bool_lit(exact_call_flag(intent, x, v))))
+
+
+def run_problem_sequence(ctx, n, steps, lits=None):
+    """steps (JSON): ["decl", j, ctor, intent] (problem.constraints[j] = ...) | ["declall", ctor, intent] (problem.constraints[:] = one value)
+    | ["decllist", [ctor..], [intent..]] (problem.constraints[:] = list) | ["eval", [repr(x)..]] (new Solution) | ["reeval", [repr(x)..]] (same Solution object again)
+    on ONE Problem object with n constraints (initially the default "==0")."""
+    from platypus import Problem, Solution, Real
+    hold = {"xs": [0.0] * n}
+    p = Problem(1, 1, n, function=lambda v: ([0.0], list(hold["xs"])))
+    p.types[:] = Real(0, 1)
+    ctors = [("str", "==0")] * n
+    intents = [("==", 0.0)] * n
+    last = None
+    done = []
+    for st in steps:
+        done.append(st)
+        rp = {"kind": "pseq", "n": n, "steps": [list(x) for x in done]}
+        try:
+            if st[0] == "decl":
+                p.constraints[st[1]] = mk_arg(tuple(st[2]))
+                ctors = list(ctors); intents = list(intents)
+                ctors[st[1]] = tuple(st[2]); intents[st[1]] = _intent(st[3])
+            elif st[0] == "declall":
+                p.constraints[:] = mk_arg(tuple(st[1]))
+                ctors = [tuple(st[1])] * n; intents = [_intent(st[2])] * n
+            elif st[0] == "decllist":
+                p.constraints[:] = [mk_arg(tuple(c)) for c in st[1]]
+                ctors = [tuple(c) for c in st[1]]; intents = [_intent(i) for i in st[2]]
+            else:
+                xs = [float(x) for x in st[1]]
+                hold["xs"] = xs
+                if st[0] == "eval" or last is None:
+                    last = Solution(p)
+                    last.variables[:] = [0.5]
+                else:
+                    last.evaluated = False
+                p(last)
+                ctx.count()
+                oracle_eval(ctx, ctors, intents, xs, last, p, rp=rp)
+                cv = last.constraint_violation
+                ex = exact_eval_flag(intents, xs, cv)
+                if lits is not None and ex is not None and all(shippable(c) for c in ctors):
+                    lits.append("KEval %s %s %s %s %s" % (C.list_lit([sp_lit(c) for c in ctors]), C.list_lit([C.xq_lit(x) for x in xs]), C.xq_lit(cv),
+                                                        C.bool_lit(bool(last.feasible)), C.bool_lit(ex)))
+        except Exception as e:  # noqa: BLE001
+            ctx.violation("problem-sequence-raises", "step %r on a Problem with %d constraints raised %s: %s" % (st, n, type(e).__name__, e), rp)
+            return
 
 
 # ----------------------------------------------------------------------------
@@ -552,12 +684,71 @@ def run(ctx):
     dist["feasible_vs_infeasible_pairs(Pareto+Epsilon dominance)"] = beats_done
     ctx.sample({"evaluate": {"constraints": [list(c) for c in meta[-1][1]], "values": [repr(x) for x in meta[-1][3]]}, "coq_case": lits[-1][:600]})
 
+    # ---- 4. operation sequences: live objects called in interleaved order, one Problem re-declared in place
+    nbefore = len(lits)
+    seq_calls = 0
+    for _ in range(ctx.scale(12, 80)):
+        steps = []
+        chosen = [rng.choice(pool) for _ in range(rng.randrange(3, 7))]
+        xpool = [0.0, -0.0, 1.0]
+        for op, tok in chosen:
+            y = float(tok)
+            name, ctor = rng.choice(spellings(op, tok))
+            steps.append(["new", list(ctor), jintent((op, y))])
+            xpool += [y, math.nextafter(y, INF), math.nextafter(y, -INF), y + 0.5, y - 0.5]
+        nobj = len(chosen)
+        for _k in range(rng.randrange(1, 4)):
+            steps.append(["copy", rng.randrange(nobj)]); nobj += 1
+        for _k in range(ctx.scale(60, 120)):
+            if rng.random() < 0.6:
+                x = rng.choice(xpool)
+                for i in rng.sample(range(nobj), min(nobj, 3)):      # the SAME value handed to different objects back to back
+                    steps.append(["call", i, repr(x)]); seq_calls += 1
+            else:
+                steps.append(["call", rng.randrange(nobj), repr(rng.choice(xpool))]); seq_calls += 1
+        run_object_sequence(ctx, steps, lits)
+        ctx.mark(("oseq", tuple(tuple(c) for c in chosen), len(steps)))
+    seq_evals = 0
+    nps = ctx.scale(25, 200)
+    for _ in range(nps):
+        n = rng.randrange(1, 5)
+        steps = []
+        cur = [("==", 0.0)] * n
+        for _k in range(ctx.scale(10, 16)):
+            r = rng.random()
+            if r < 0.3:
+                op, tok = rng.choice(pool); name, ctor = rng.choice(spellings(op, tok)); j = rng.randrange(n)
+                steps.append(["decl", j, list(ctor), jintent((op, float(tok)))]); cur = list(cur); cur[j] = (op, float(tok))
+            elif r < 0.4:
+                op, tok = rng.choice(pool); name, ctor = rng.choice(spellings(op, tok))
+                steps.append(["declall", list(ctor), jintent((op, float(tok)))]); cur = [(op, float(tok))] * n
+            elif r < 0.5 and n >= 2:
+                picks = [rng.choice(pool) for _j in range(n)]
+                cts = [rng.choice(spellings(op, tok))[1] for op, tok in picks]
+                steps.append(["decllist", [list(c) for c in cts], [jintent((op, float(tok))) for op, tok in picks]]); cur = [(op, float(tok)) for op, tok in picks]
+            else:
+                xs = []
+                for op, y in cur:
+                    cand = [v for v in values_for(y, rng)]
+                    good = [v for v in cand if PY_REL[op](v, y)]
+                    xs.append(rng.choice(good) if good and rng.random() < 0.5 else rng.choice(cand))
+                steps.append([rng.choice(["eval", "eval", "reeval"]), [repr(x) for x in xs]]); seq_evals += 1
+        run_problem_sequence(ctx, n, steps, lits)
+        ctx.mark(("pseq", n, json_key(steps)))
+    dist["sequences"] = {"object_sequences": ctx.scale(12, 80), "calls_in_object_sequences": seq_calls, "problem_sequences": nps,
+                         "evaluations_in_problem_sequences": seq_evals, "cases_shipped_to_coq": len(lits) - nbefore,
+                         "what": "live Constraint objects + copies of them, the same value handed to different objects back to back; one Problem object: constraints[j]=, "
+                                 "constraints[:]=value, constraints[:]=list, evaluation of new and of the same Solution object after each re-declaration"}
+    for _m in range(len(lits) - nbefore):
+        meta.append(("seq",))
+    ctx.sample({"problem_sequence_steps": steps[:4]})
+
     ctx.coverage["input_distribution"] = dist
     ctx.coverage["correspondence_cases"] = len(lits)
     ctx.rule = ("declarations: 6 operators x %d threshold tokens (negative, -0.0, 0, fractions, scientific notation, 1e300, 1e-300) x 6-7 spellings (together, one space, blanks+tab, "
                 "two-argument, copy, final newline, predefined constant), every character < U+0100 as separator, %d fixed malformed strings, random strings over '<>=! \\t\\n05.e-+x1', "
                 "bad two-argument operators; calls: each (operator, threshold) on the threshold, 2 floats above/below, +-inf, far and dyadic values; evaluations: random 1-4 "
-                "constraints (incl. callables) through Problem.__call__.  non-trivial & distinct = accepted declarations other than the plain 'op+number' string, calls whose value is "
+                "constraints (incl. callables) through Problem.__call__; operation sequences on live Constraint objects/copies and on one Problem object re-declared in place.  non-trivial & distinct = accepted declarations other than the plain 'op+number' string, calls whose value is "
                 "within 2 ulp of the threshold or infinite, evaluations with >= 2 constraints of which at least one is satisfied; each counted once by its full input"
                 % (len(TOKENS), len(MALFORMED)))
 
@@ -626,6 +817,10 @@ def replay(ctx, data):
         ctors = [tuple(c) for c in rp["ctors"]]
         oracle_beats(ctx, ctors, [float(v) for v in rp["xs_feasible"]], [float(v) for v in rp["xs_infeasible"]],
                      [float(v) for v in rp["objs"][0]], [float(v) for v in rp["objs"][1]])
+    elif kind == "oseq":
+        run_object_sequence(ctx, rp["steps"], None)
+    elif kind == "pseq":
+        run_problem_sequence(ctx, rp["n"], rp["steps"], None)
     elif kind == "decl":
         ctor = tuple(rp["ctor"])
         c, err = declare(ctor)
